@@ -32,7 +32,7 @@ pub open spec fn spec_ordered<T: PartialOrd, A>(e: Edge<T, A>) -> Edge<T, A>
 // one empty row appended, existing rows untouched
 pub open spec fn rows_extended(old_rows: Seq<Vec<AdjacentNode>>, new_rows: Seq<Vec<AdjacentNode>>) -> bool {
     &&& new_rows.len() == old_rows.len() + 1
-    &&& forall|i: int| 0 <= i < old_rows.len() ==> new_rows[i] == old_rows[i]
+    &&& forall|i: int| 0 <= i < old_rows.len() ==> #[trigger] new_rows[i] == old_rows[i]
     &&& new_rows[old_rows.len() as int]@ == Seq::<AdjacentNode>::empty()
 }
 
@@ -333,4 +333,16 @@ pub open spec fn edges_of<T: PartialOrd + Send, A>(v: Seq<Arc<Edge<T, A>>>) -> S
 
 pub open spec fn tuple_edges<T: PartialOrd + Send, A>(v: Seq<(T, T)>) -> Seq<Edge<T, A>> {
     Seq::new(v.len(), |i: int| Edge { u: v[i].0, v: v[i].1, attributes: None, weight: f64_nan() })
+}
+
+// ---- case split used to verify add_edge (one Verus run per case) ----
+pub open spec fn add_edge_case<T: Eq + PartialOrd + Send + Sync, A: Clone>(g: Graph<T, A>, directed: bool, multi: bool) -> bool {
+    g.specs.directed == directed && g.specs.multi_edges == multi
+}
+
+// [C01.add_edge.cases_cover]
+pub proof fn lemma_add_edge_cases_cover<T: Eq + PartialOrd + Send + Sync, A: Clone>(g: Graph<T, A>)
+    ensures
+        add_edge_case(g, true, true) || add_edge_case(g, true, false) || add_edge_case(g, false, true) || add_edge_case(g, false, false),
+{
 }
